@@ -299,6 +299,15 @@ func perSampleGraphs(e *emitter) []perSample {
 			{Op: "ReduceMax", Attrs: []Attr{{Name: "axes", Type: "ints", Ints: []int64{2, 3}}, {Name: "keepdims", Type: "i", I: 0}}, Ins: []string{"a"}, Outs: []string{"y"}},
 		}, Outputs: []string{"y", "c"}},
 		[]BatchIn{{"x", []int{0, 2, 4, 3}, 0}}})
+	// 1-D convolution, more filters than samples and fewer (batch and filter indices must not be confused)
+	out = append(out, perSample{"conv1d", &GraphJ{
+		Inputs: []VInfoJ{{Name: "x", Dt: "f32", Dims: []any{"N", 2, 5}}},
+		Inits:  []InitJ{{Name: "w", T: tinyT("f32", []int{3, 2, 2}, 5)}, {Name: "b", T: tinyT("f32", []int{3}, 6)}, {Name: "w1", T: tinyT("f32", []int{1, 2, 3}, 7)}},
+		Nodes: []NodeJ{
+			{Op: "Conv", Attrs: []Attr{{Name: "pads", Type: "ints", Ints: []int64{1, 0}}}, Ins: []string{"x", "w", "b"}, Outs: []string{"c"}},
+			{Op: "Conv", Attrs: []Attr{{Name: "strides", Type: "ints", Ints: []int64{2}}}, Ins: []string{"x", "w1"}, Outs: []string{"c1"}},
+		}, Outputs: []string{"c", "c1"}},
+		[]BatchIn{{"x", []int{0, 2, 5}, 0}}})
 	// conv with automatic padding and strides: the padding depends on the spatial extents only
 	out = append(out, perSample{"conv-autopad", &GraphJ{
 		Inputs: []VInfoJ{{Name: "x", Dt: "f32", Dims: []any{"N", 1, 5, 6}}},
